@@ -367,7 +367,7 @@ def enumerate_cases(tier):
                 if v1 == v2:
                     continue
                 for tail in (None, ["pipe", 1, "tostr"], ["pipe", 1, "plus1"], ["bin", "*", ["n", 1], ["c", 2]],
-                             ["getitem", 2, ["n", 1]], ["or_", 1, 3], ["and_", 3, 1]):
+                             ["getitem", 2, ["n", 1]], ["or_", 1, 3], ["and_", 3, 1], ["attr", 1, "numerator"], ["attr", 1, "real"]):
                     dag = [["root", root], ["pipe", 0, "one3"]]
                     if tail is not None and tail[0] == "getitem":
                         dag = dag + [["root", 3], ["getitem", 2, ["n", 1]]]
